@@ -1,0 +1,96 @@
+//go:build verif
+
+// Contracts (machine-checked specifications) for package inmem, read by the
+// verifier under /verif. Comments only; compiled only with -tags verif.
+//
+// The radix tree is a dependency with a TRUSTED library specification (a finite
+// map from keys to values): rtHas(t, k) - key present; rtBytes(t, k) - content
+// of the []byte stored under k; rtWf(t) - every stored value is an existing,
+// non-nil []byte. The abstract view of a Storage is that map; every operation
+// is specified over the whole view (the touched key and all others).
+
+package inmem
+
+//@ pred wfStorage(ts) := ts != nil && ts.root != nil && rtWf(ts.root)
+//@ pred sameView(t) := forall k String :: rtHas(t, k) == old(rtHas(t, k)) && (rtHas(t, k) ==> rtBytes(t, k) == old(rtBytes(t, k)))
+//@ pred sameViewBut(t, p) := forall k String :: k != p ==> rtHas(t, k) == old(rtHas(t, k)) && (rtHas(t, k) ==> rtBytes(t, k) == old(rtBytes(t, k)))
+
+// known(msg): one of the four storable message types; pathFor(msg): its key
+//@ pred known(m) := dynIs(m, "types.NodeCredentials") || dynIs(m, "types.NodeInformation") || dynIs(m, "types.RootCertificates") || dynIs(m, "types.ServerLedActivationToken")
+//@ pred pathFor(m) := ite(dynIs(m, "types.NodeCredentials"), "nodecreds/" + as(m, "types.NodeCredentials").Id,
+//@   | ite(dynIs(m, "types.NodeInformation"), "nodeinfo/" + as(m, "types.NodeInformation").Id,
+//@   | ite(dynIs(m, "types.RootCertificates"), "roots/" + as(m, "types.RootCertificates").Id,
+//@   |     "serverledactivationtokens/" + as(m, "types.ServerLedActivationToken").Id)))
+//@ pred idFor(m) := ite(dynIs(m, "types.NodeCredentials"), as(m, "types.NodeCredentials").Id,
+//@   | ite(dynIs(m, "types.NodeInformation"), as(m, "types.NodeInformation").Id,
+//@   | ite(dynIs(m, "types.RootCertificates"), as(m, "types.RootCertificates").Id, as(m, "types.ServerLedActivationToken").Id)))
+
+//@ func storage/inmem.subPathFromMsg
+//@   nopanic[C19]
+//@   ensures[C19,* known] err == nil <==> known(msg)
+//@   ensures[C19,* path] err == nil ==> (dynIs(msg, "types.NodeCredentials") ==> ret == "nodecreds") && (dynIs(msg, "types.NodeInformation") ==> ret == "nodeinfo")
+//@   |   && (dynIs(msg, "types.RootCertificates") ==> ret == "roots") && (dynIs(msg, "types.ServerLedActivationToken") ==> ret == "serverledactivationtokens")
+
+//@ func storage/inmem.(*Storage).storeValue
+//@   let t = ts.root
+//@   let p = subPath + "/" + id
+//@   requires[wf] wfStorage(ts)
+//@   nopanic[C19]
+//@   ensures[C19,* stored] err == nil ==> id != "" && subPath != "" && rtHas(t, p) && encodes(rtBytes(t, p), msg)
+//@   ensures[C19,* others] sameViewBut(t, p)
+//@   ensures[C19,* failed] err != nil ==> sameView(t)
+//@   ensures[C19,* wf] wfStorage(ts)
+//@   modifies tree(ts.root)
+
+//@ func storage/inmem.(*Storage).loadValue
+//@   let t = ts.root
+//@   let p = subPath + "/" + id
+//@   requires[wf] wfStorage(ts)
+//@   nopanic[C19]
+//@   ensures[C19,* found] err == nil ==> rtHas(t, p) && decodedFrom(result, rtBytes(t, p))
+//@   ensures[C19,* absent] id != "" && subPath != "" && !rtHas(t, p) ==> err != nil
+//@   ensures[C19,* readonly] sameView(t) && wfStorage(ts)
+//@   modifies fields(result)
+
+//@ func storage/inmem.(*Storage).removeValue
+//@   let t = ts.root
+//@   let p = subPath + "/" + id
+//@   requires[wf] wfStorage(ts)
+//@   nopanic[C19]
+//@   ensures[C19,* removed] err == nil ==> !rtHas(t, p)
+//@   ensures[C19,* others] sameViewBut(t, p)
+//@   ensures[C19,* failed] err != nil ==> sameView(t)
+//@   ensures[C19,* wf] wfStorage(ts)
+//@   modifies tree(ts.root)
+
+//@ func storage/inmem.(*Storage).Store
+//@   let t = ts.root
+//@   requires[wf] wfStorage(ts)
+//@   nopanic[C19]
+//@   ensures[C19 refused] IsNil(msg) || !known(msg) ==> err != nil
+//@   ensures[C19 stored] err == nil ==> rtHas(t, pathFor(msg)) && encodes(rtBytes(t, pathFor(msg)), msg) && idFor(msg) != ""
+//@   ensures[C19 others] err == nil ==> sameViewBut(t, pathFor(msg))
+//@   ensures[C19 failed] err != nil ==> sameView(t)
+//@   ensures[C19 wf] wfStorage(ts)
+//@   modifies tree(ts.root)
+
+//@ func storage/inmem.(*Storage).Load
+//@   let t = ts.root
+//@   requires[wf] wfStorage(ts)
+//@   nopanic[C19]
+//@   ensures[C19 refused] IsNil(msg) || !known(msg) ==> err != nil
+//@   ensures[C19 found] err == nil ==> rtHas(t, pathFor(msg)) && decodedFrom(msg, rtBytes(t, pathFor(msg)))
+//@   ensures[C19 absent] !IsNil(msg) && known(msg) && old(idFor(msg)) != "" && !rtHas(t, old(pathFor(msg))) ==> err != nil
+//@   ensures[C19 readonly] sameView(t) && wfStorage(ts)
+//@   modifies fields(msg)
+
+//@ func storage/inmem.(*Storage).Remove
+//@   let t = ts.root
+//@   requires[wf] wfStorage(ts)
+//@   nopanic[C19]
+//@   ensures[C19 refused] IsNil(msg) || !known(msg) ==> err != nil
+//@   ensures[C19 removed] err == nil ==> !rtHas(t, pathFor(msg))
+//@   ensures[C19 others] err == nil ==> sameViewBut(t, pathFor(msg))
+//@   ensures[C19 failed] err != nil ==> sameView(t)
+//@   ensures[C19 wf] wfStorage(ts)
+//@   modifies tree(ts.root)
